@@ -1,7 +1,4 @@
 SPECIFICATION TraceSpec
-CONSTANTS
-  Relaxed = TRUE
-  RelaxedOs = TRUE
-INVARIANT Inv
+CONSTANT Relaxed = TRUE
 POSTCONDITION TraceAccepted
 CHECK_DEADLOCK FALSE
